@@ -11,25 +11,30 @@
 #include "contracts/list_qinsert.h"
 
 #ifndef Q_LIST_MAX
-#define Q_LIST_MAX 1000
+#define Q_LIST_MAX 4
 #endif
 static struct KSI_List_st q_list;
 static struct listImpl_st q_impl;
 
-#ifdef H_q_insert
-void harness(void) {
-	void *obj = nondet_ptr(); size_t pos = nondet_size(); size_t len0, size0; int res;
+static int q_mk(void) {
 	q_impl.arr_size = nondet_size(); q_impl.arr_len = nondet_size(); q_impl.arr = NULL;
 	if (q_impl.arr_size != 0) {
-		if (q_impl.arr_size > Q_LIST_MAX) return;
+		if (q_impl.arr_size > Q_LIST_MAX) return 0;
 		q_impl.arr = malloc(q_impl.arr_size * sizeof(struct listEl_st));
-		if (q_impl.arr == NULL) return;
+		if (q_impl.arr == NULL) return 0;
 	}
 	q_list.pImpl = &q_impl; q_list.obj_free = nondet_bool() ? list_stub_free : NULL;
 	g_lw = nondet_size(); g_lv = nondet_size();
 	g_lold_w = (q_impl.arr != NULL && g_lw < q_impl.arr_size) ? q_impl.arr[g_lw].ptr : NULL;
 	g_lold_v = (q_impl.arr != NULL && g_lv < q_impl.arr_size) ? q_impl.arr[g_lv].ptr : NULL;
 	g_lfree_calls = 0; g_lfree_last = NULL; g_live = 5;
+	return 1;
+}
+
+#ifdef H_q_insert
+void harness(void) {
+	void *obj = nondet_ptr(); size_t pos = nondet_size(); size_t len0, size0; int res;
+	if (!q_mk()) return;
 	g_q_len0 = len0 = q_impl.arr_len; g_q_pos = pos; size0 = q_impl.arr_size;
 	res = insertElementAt(&q_list, pos, obj);
 	REACH("insertAt returns");
@@ -40,5 +45,20 @@ void harness(void) {
 	if (res == KSI_OUT_OF_MEMORY) REACH("insertAt: growth failed");
 	if (res == KSI_BUFFER_OVERFLOW && pos == len0 && len0 > 0) REACH("insertAt at the end is refused");
 	if (res == KSI_INVALID_STATE) REACH("insertAt into a list without array is refused");
+}
+#endif
+
+#ifdef H_q_append      /* enforces the re-ordered appendElement contract of contracts/list_qinsert.h (with Q_APPEND_ENFORCED) */
+void harness(void) {
+	void *obj = nondet_ptr(); size_t len0, size0; int res;
+	if (!q_mk()) return;
+	len0 = q_impl.arr_len; size0 = q_impl.arr_size;
+	res = appendElement(&q_list, obj);
+	REACH("append returns");
+	__CPROVER_assert(g_lfree_calls == 0, "append: no element is destroyed");
+	if (res == KSI_OK && len0 > 0 && len0 == size0) REACH("append grew a non-empty array");
+	if (res == KSI_OK && size0 == 0) REACH("append allocated the first array");
+	if (res == KSI_OK && len0 < size0) REACH("append without growth");
+	if (res == KSI_OUT_OF_MEMORY) REACH("append: allocation failed");
 }
 #endif
